@@ -19,3 +19,18 @@ pub assume_specification[ i32::unsigned_abs ](x: i32) -> (r: u32)
 pub fn usize_min(a: usize, b: usize) -> (r: usize)
     ensures r == (if a <= b { a } else { b }),
 { core::cmp::min(a, b) }
+
+// num_traits::MulAdd on usize: self * a + b (overflow is a panic in debug builds: an obligation)
+pub trait MulAddU: Sized {
+    spec fn ma_ok(self, a: Self, b: Self) -> bool;
+    spec fn ma_val(self, a: Self, b: Self) -> Self;
+    fn mul_add(self, a: Self, b: Self) -> (r: Self)
+        requires self.ma_ok(a, b),          // #mul_add_no_overflow
+        ensures r == self.ma_val(a, b);
+}
+impl MulAddU for usize {
+    open spec fn ma_ok(self, a: usize, b: usize) -> bool { self * a + b <= usize::MAX }
+    open spec fn ma_val(self, a: usize, b: usize) -> usize { (self * a + b) as usize }
+    #[verifier::external_body]
+    fn mul_add(self, a: usize, b: usize) -> (r: usize) { self * a + b }
+}
